@@ -56,6 +56,7 @@ def install(R: Registry):
     R.ghost_global("acks", "Map[Module, Int]")             # ACK frames written directly to m by send_ack
     R.ghost_global("ack_copies", "Map[Module, Int]")       # ACK copies written to logger m by send_to_loggers
     R.ghost_global("closed_notices", "Map[Module, Int]")   # CLIENT_CLOSED published for m
+    R.ghost_global("rx_short", "Bool")                     # some recv of the frame being read returned fewer bytes than asked for (peer closed inside the frame)
 
     R.assume_text(
         "Module.__eq__ (dataclass field-wise) coincides with identity: uid and conn are unique per Module",
